@@ -1,6 +1,8 @@
 /-
 Driver/C19.lean — line-protocol driver for C19.
 in : {"case": n, "kind": "row", "ctor": Ctor, "ops": [Op]}
+     {"case": n, "kind": "assertseq", "actual": [Val], "expected": [Val], "calls": [{"order", "sel": "ae"|"ea"|"aa"|"ee", "close"}]}
+     {"case": n, "kind": "assertargs", "actual": Arg, "expected": Arg, "order": bool, "close": …}   Arg = null | {"rows"} | {"frame": {"schema", "rows"}}
      {"case": n, "kind": "assert", "actual": [Val], "expected": [Val], "order": bool, "close": [[a, b, bool]]}
      {"case": n, "kind": "schema", "a": DType(struct), "e": DType(struct)}
 out: {"case": n, "sf": …, "ps": …}   (lists of outcomes / verdicts of the two transcriptions)
@@ -13,6 +15,21 @@ def closeTable (tbl : List (Int × Int × Bool)) (a b : Int) : Bool :=
   match tbl.find? (fun x => x.1 == a && x.2.1 == b) with
   | some x => x.2.2
   | none => a == b
+
+def tableFromJson (j : Json) : Except String (List (Int × Int × Bool)) := do
+  let tblJ ← j.getArr?
+  tblJ.toList.mapM (fun t => do
+    let arr ← t.getArr?
+    match arr.toList with
+    | [x, y, z] => pure ((← x.getInt?), (← y.getInt?), (← z.getBool?))
+    | _ => .error "bad close entry")
+
+def callFromJson (j : Json) : Except String Call := do
+  let tbl ← tableFromJson (← j.getObjVal? "close")
+  pure { close := closeTable tbl, order := (← (← j.getObjVal? "order").getBool?), sel := (← selFromJson (← j.getObjVal? "sel")) }
+
+def seqOut (r : List Bool × St) : Json :=
+  Json.mkObj [("verdicts", toJson r.1), ("a", Json.arr (r.2.a.map valToJson).toArray), ("e", Json.arr (r.2.e.map valToJson).toArray)]
 
 def handleCase (j : Json) : Except String Json := do
   let case ← j.getObjVal? "case"
@@ -37,6 +54,19 @@ def handleCase (j : Json) : Except String Json := do
     pure (Json.mkObj [("case", case),
       ("sf", toJson (Sf.verdict (closeTable tbl) order a e)),
       ("ps", toJson (Ps.verdict (closeTable tbl) order a e))])
+  else if kind == "assertseq" then
+    let a ← (← (← j.getObjVal? "actual").getArr?).toList.mapM valFromJson
+    let e ← (← (← j.getObjVal? "expected").getArr?).toList.mapM valFromJson
+    let calls ← (← (← j.getObjVal? "calls").getArr?).toList.mapM callFromJson
+    pure (Json.mkObj [("case", case), ("sf", seqOut (Sf.runCalls calls ⟨a, e⟩)), ("ps", seqOut (Ps.runCalls calls ⟨a, e⟩))])
+  else if kind == "assertargs" then
+    let a ← argFromJson (← j.getObjVal? "actual")
+    let e ← argFromJson (← j.getObjVal? "expected")
+    let order ← (← j.getObjVal? "order").getBool?
+    let tbl ← tableFromJson (← j.getObjVal? "close")
+    pure (Json.mkObj [("case", case),
+      ("sf", toJson (Sf.verdictArgs (closeTable tbl) order a e)),
+      ("ps", toJson (Ps.verdictArgs (closeTable tbl) order a e))])
   else if kind == "schema" then
     match (← dtypeFromJson (← j.getObjVal? "a")), (← dtypeFromJson (← j.getObjVal? "e")) with
     | .struct fa, .struct fe =>
